@@ -257,6 +257,11 @@ class Builtins:
                                  lambda b: raise_(b, "KeyError"))
         if isinstance(obj, VFunc) and obj.kind == "objdict":
             return self.objdict_get(obj.ref, key, st, k)
+        if isinstance(obj, VStr) and obj.t is not None and isinstance(key, (VInt, VBool)):
+            n = z3.Length(obj.t)
+            i = _as_int(key)
+            return cx.branch(st, z3.And(-n <= i, i < n), lambda s1: k(VStr(z3.SubString(obj.t, ite(i < 0, i + n, i), 1)), s1),
+                             lambda s2: raise_(s2, "IndexError"))
         if isinstance(obj, VStr) and obj.t is not None and isinstance(key, VSlice):
             n = z3.Length(obj.t)
             a, b, c = slice_indices(cx, key, n)
